@@ -80,11 +80,13 @@ package exif2
 //@   modifies ir.po, stream(ir.reader), ir.buffer.buf
 //@   ensures [C02] pos(ir.reader) >= old(pos(ir.reader))
 //@   loop 0 decreases ite(err == nil, n, 0)
+//@   loop 0 invariant pos(ir.reader) >= old(pos(ir.reader))
 
 //@ func (*ifdReader).readTagValue
 //@   props C01 C02
 //@   requires irOK(ir) && ir.buffer.pos < 84
 //@   modifies ir.po, stream(ir.reader), ir.buffer.buf
+//@   ensures [C02] err == nil ==> pos(ir.reader) >= old(pos(ir.reader)) + len(buf)
 //@   ensures [C02] pos(ir.reader) >= old(pos(ir.reader))
 //@   ensures [C01] err == nil ==> len(buf) == int(ir.buffer.tag[ir.buffer.pos].Size())
 
@@ -98,12 +100,14 @@ package exif2
 //@   props C01
 //@   requires irOK(ir)
 //@   modifies ir.po, stream(ir.reader), ir.buffer.buf
+//@   ensures [C02] err == nil ==> pos(ir.reader) == old(pos(ir.reader)) + 2
 //@   ensures [C02] pos(ir.reader) >= old(pos(ir.reader))
 
 //@ func (*ifdReader).readUint32
 //@   props C01
 //@   requires irOK(ir)
 //@   modifies ir.po, stream(ir.reader), ir.buffer.buf
+//@   ensures [C02] err == nil ==> pos(ir.reader) == old(pos(ir.reader)) + 4
 //@   ensures [C02] pos(ir.reader) >= old(pos(ir.reader))
 
 //@ func (*ifdReader).addTagBuffer
@@ -259,7 +263,7 @@ package exif2
 //@   ensures [C02] pos(ir.reader) >= old(pos(ir.reader))
 //@   ensures [C02] ir.buffer.len > old(ir.buffer.len) ==> pos(ir.reader) > old(pos(ir.reader))
 //@   ensures ir.buffer.len <= 84 && ir.buffer.len >= old(ir.buffer.len)
-//@   loop 0 invariant 0 <= i && ir.buffer.len <= 84 && ir.buffer.len >= old(ir.buffer.len) && pos(ir.reader) >= old(pos(ir.reader)) && (i > 0 ==> pos(ir.reader) > old(pos(ir.reader))) && (i == 0 ==> ir.buffer.len == old(ir.buffer.len))
+//@   loop 0 invariant 0 <= i && ir.buffer.len <= 84 && ir.buffer.len >= old(ir.buffer.len) && pos(ir.reader) >= old(pos(ir.reader)) && (len(buf) > 0 ==> pos(ir.reader) > old(pos(ir.reader))) && (i > 0 ==> len(buf) >= 4) && (i == 0 ==> ir.buffer.len == old(ir.buffer.len))
 //@   loop 0 decreases int(t.UnitCount) - i
 
 //@ func (*ifdReader).readMakerNotes
